@@ -115,3 +115,27 @@ Theorem C15_u2i_example :
   u2i CPath [47; 37; 67; 51; 37; 65; 57; 37; 50; 48; 37; 50; 70; 37; 52; 49] = [47; 233; 37; 50; 48; 37; 50; 70; 65].
 Proof. exact u2i_example. Qed.
 Print Assumptions C15_u2i_example.
+
+(* get_host removes nothing but the default port of the scheme: the result is the host itself,
+   or the host is the result followed by exactly colon 8 0 (scheme http or ws) or colon 4 4 3
+   (scheme https or wss); the rules are those regenerated from the source *)
+Theorem C15_get_host_port : forall scheme host,
+  let r := strip_default_port scheme host in
+  r = host
+  \/ (host = r ++ P80 /\ (scheme = HTTP \/ scheme = WS))
+  \/ (host = r ++ P443 /\ (scheme = HTTPS \/ scheme = WSS)).
+Proof. exact strip_default_port_sound. Qed.
+Print Assumptions C15_get_host_port.
+
+(* ... and it does remove it, whatever the host in front of it ends with *)
+Theorem C15_get_host_port_removed : forall h,
+  strip_default_port HTTP (h ++ P80) = h /\ strip_default_port WS (h ++ P80) = h
+  /\ strip_default_port HTTPS (h ++ P443) = h /\ strip_default_port WSS (h ++ P443) = h.
+Proof. exact strip_default_port_complete. Qed.
+Print Assumptions C15_get_host_port_removed.
+
+Theorem C15_get_host_example :
+  get_host HTTP (Some [49; 48; 46; 48; 46; 48; 46; 56; 48; 58; 56; 48]) None = [49; 48; 46; 48; 46; 48; 46; 56; 48]
+  /\ get_host HTTPS None (Some ([50; 48; 48; 49; 58; 58; 56], Some [52; 52; 51])) = [91; 50; 48; 48; 49; 58; 58; 56; 93].
+Proof. exact get_host_example. Qed.
+Print Assumptions C15_get_host_example.
